@@ -27,6 +27,7 @@ PROP = [  # (subject fragment, property ids, key that used to be reported)
  ('priority among builtin features enabled by flags', 'C13,C10', 'c13:nondeterministic:determinism-flags'),
  ('changed lines preceding a merge-conflict region', 'C01', 'c01:combined:kind (buffered lines emitted after the conflict region)'),
  ('mode-change-only file header was printed twice', 'C14,C01', 'c01:real:expected a line, found a file row (git log -p: mode-only section last in a commit)'),
+ ('truncate_str_short must return a prefix', 'C03', 'panic|delta::paint::get_syntax_style_sections_for_lines|end byte index N is not a char boundary'),
  ("Display for Style omitted the 'hidden'", 'C12', 'c12:show-config-round-trip (hidden)'),
 ]
 log = subprocess.run(['git', '-C', '/repo', 'log', '--format=%H%x09%s', '--reverse'], stdout=subprocess.PIPE).stdout.decode().splitlines()
